@@ -20,14 +20,15 @@ import Emerge.Inst.LexerTmpl
   by the `reader` correspondence of checks/c19.py) is proved to be the plain byte stream for EVERY
   half size, source length and block alignment (`C19_reader`, `C19_reader_lexeme`): `next`,
   `Retract`, `Lexeme` and `Skip` return what a cursor over the whole source returns, as long as the
-  calls stay within the reader's contract (source without NUL; a `Retract` gives back bytes of the
-  pending lexeme, at most one half outstanding). A lexeme may be longer than the buffer: its bytes
+  calls stay within the reader's contract (a `Retract` gives back bytes of the pending lexeme, at most one
+  half outstanding) - for EVERY source, zero bytes included: the end of the input is the index of the sentinel
+  (`RState.stop`), not the first zero byte (the repair of a second defect this model exposed: the refinement
+  needed the hypothesis "the source has no NUL", and the real lexer silently dropped everything after a zero byte). A lexeme may be longer than the buffer: its bytes
   are kept as they are read (the repair of a defect this model exposed: `Lexeme` used to read them
   back from the halves, and the refinement needed the hypothesis "lexeme plus look-ahead fit into one
   half" - the real lexer returned the tail of any token longer than 8 KiB). UTF-8: the bytes of any text of Unicode
   scalar values decode to that text (`C19_utf8`, `Utf8.decode` is the table-driven decoder of the
-  emitted `Next`), a rune gives back 1 to 4 bytes, and a text without U+0000 has no NUL byte, so the
-  hypothesis of `C19_reader` is met. The emitted `Next` (model `Reader.nextRune`: 1 to 4 calls of
+  emitted `Next`), a rune gives back 1 to 4 bytes, and a text without U+0000 has no NUL byte. The emitted `Next` (model `Reader.nextRune`: 1 to 4 calls of
   `next`, first-byte classes and second-byte ranges as the template's tables give them) returns, in
   every reachable state of the reader, the scalar value whose encoding lies at the cursor and moves
   the cursor behind it (`C19_next_rune`) - also when the bytes of the rune straddle a reload.
@@ -162,15 +163,15 @@ example : (Emitted.scan demo [97, 63]).2 = .lexErr ⟨1, 1, 2⟩ [63] := by deci
 /-! ### the reader under the emitted lexer -/
 
 open Emerge.Reader in
-/-- **The two-half reader is the plain stream.** For every source without NUL bytes, every half size `n ≥ 1`
+/-- **The two-half reader is the plain stream.** For every source (any bytes, zero bytes included), every half size `n ≥ 1`
     (the emitted constant is 4096; the check also compiles it with 4 and 8) and every sequence of `next` /
     `Retract(size)` / `Lexeme` / `Skip` calls within the contract, the outputs of the reader (bytes, end of input,
     lexemes of any length) are those of a cursor over the whole source: independent of the input length, of where
     the buffer halves fall and of how often a half has been reloaded. -/
-theorem C19_reader {src : Nat → Nat} {len n : Nat} (hnf : NulFree src len) (hn : 0 < n) (buf0 : Nat → Nat)
+theorem C19_reader {src : Nat → Nat} {len n : Nat} (hn : 0 < n) (buf0 : Nat → Nat)
     (ops : List Reader.Op) (outs : List Out) (h : aRun src len n ⟨0, 0, 0⟩ ops = some outs) :
     cRun src len n (init src len n buf0) ops = outs :=
-  reader_is_stream hnf hn buf0 ops outs h
+  reader_is_stream hn buf0 ops outs h
 
 open Emerge.Reader in
 /-- `Lexeme` in any reachable state returns the bytes between the start of the pending lexeme and the cursor —
@@ -212,14 +213,14 @@ open Emerge.Reader in
     re-reading given-back bytes or loading a half in the middle of the sequence): if the UTF-8 encoding of the scalar
     value `r` lies in the source at the cursor, the result is `r` with the length of that encoding (what `Retract` will
     give back), and the reader is at the cursor behind it. -/
-theorem C19_next_rune {src : Nat → Nat} {len n : Nat} (hnf : NulFree src len) {s : RState} {a : AState} {g : Ghost}
+theorem C19_next_rune {src : Nat → Nat} {len n : Nat} {s : RState} {a : AState} {g : Ghost}
     (h : Inv2 src len n s a g) (r : Nat) (hr : Utf8.Scalar r)
     (hfit : a.k + (Utf8.encodeRune r).length ≤ len)
     (hat : ∀ i, i < (Utf8.encodeRune r).length → src (a.k + i) = (Utf8.encodeRune r).getD i 0) :
     ∃ g', (nextRune src len n s).1 = .rune r (Utf8.encodeRune r).length ∧
       Inv2 src len n (nextRune src len n s).2
         ⟨a.k + (Utf8.encodeRune r).length, a.p - (Utf8.encodeRune r).length, a.kb⟩ g' :=
-  nextRune_refines hnf h r hr hfit hat
+  nextRune_refines h r hr hfit hat
 
 /-- The byte-level methods of the emitted reader read, statement for statement, as the ones `Emerge.Reader` models;
     its sentinel is NUL; its UTF-8 tables classify every first byte as `Utf8.decode` does. -/
